@@ -321,7 +321,7 @@ theorem makeData_enum_decl {pkg : Pkg} (v : ValidFacts pkg) {f : String} {t : TS
     makeData .enum pkg sp t.name =
       if t.alias then .error .fatal else if (goConsts t.name pkg).isEmpty then .ok false
       else if nonIntUnder t then .error .fatal else .ok true := by
-  simp only [makeData, namedSpecs_of_mem v h, constsOf_eq _ _ v.cval]
+  simp only [makeData, namedTop_eq pkg v.noLoc, namedSpecs_of_mem v h, constsOf_eq _ _ v.cval]
   cases ha : t.alias <;> cases hc : (goConsts t.name pkg).isEmpty <;> cases hn : nonIntUnder t <;>
     simp [ha, hc, hn, pure, Except.pure, throw, throwThe, MonadExceptOf.throw]
 
@@ -333,7 +333,7 @@ theorem makeData_enum_none {pkg : Pkg} (v : ValidFacts pkg) {n : String} (h : fi
     | cons a r =>
       obtain ⟨f, t, hd, _⟩ := under_of_goConsts v (n := n) (by simp [hg])
       simp [h] at hd
-  simp [makeData, namedSpecs_of_none v h, constsOf_eq _ _ v.cval, hc, pure, Except.pure]
+  simp [makeData, namedTop_eq pkg v.noLoc, namedSpecs_of_none v h, constsOf_eq _ _ v.cval, hc, pure, Except.pure]
 
 
 /-! ### the Generate loop -/
@@ -1310,7 +1310,11 @@ theorem region_wf_cases {cmd : Cmd} {pkg : Pkg} {fl : Flags} (h : region cmd pkg
           · split at h
             · split at h <;> cases h
             · cases h
-          · cases h
+          · split at h
+            · split at h
+              · split at h <;> cases h
+              · cases h
+            · cases h
 
 /-- on a valid package, in a selection form the property talks about and outside the finding regions, the model meets the specification -/
 theorem valid_meets (cmd : Cmd) (pkg : Pkg) (fl : Flags) (hv : validPkg pkg = true) (h : regionValid cmd pkg fl = .WF) :
